@@ -2,9 +2,10 @@ package main
 
 import (
 	"fmt"
-	"os"
 	"go/token"
 	"go/types"
+	"os"
+	"strconv"
 	"strings"
 
 	"golang.org/x/tools/go/ssa"
@@ -155,7 +156,14 @@ func (ex *Exec) canInline(fn *ssa.Function) bool {
 			}
 		}
 	}
-	return n <= 400
+	limit := 400
+	if fc := ex.eng.cs.Funcs[funcKey(fn)]; fc != nil && fc.Opts["inline-size"] != "" {
+		// per-function override on an `inline-only` shell (loop contracts of a big helper verified inlined)
+		if v, err := strconv.Atoi(fc.Opts["inline-size"]); err == nil {
+			limit = v
+		}
+	}
+	return n <= limit
 }
 
 func (ex *Exec) inline(fr *frame, st *State, reach *Term, fn *ssa.Function, free []Value, args []Value, instr ssa.Instruction, exits *[]*exit) (Value, *Term) {
